@@ -626,7 +626,8 @@ Definition nilValReturn_visit (stmt : node) : outcome :=
           if negb (is_tag TReturn ret) then Ok [] else
           match cond with
           | Nd TBinary _ _ op _ _ (NC x (NC y NN)) =>
-              if N.eqb op tok_EQL && f_pure (nfacts x) && String.eqb (qualified_name y) "nil" then
+              (* fix: ... && TypesInfo.Types[expr.Y].IsNil(): the predeclared nil, not a variable of that name *)
+              if N.eqb op tok_EQL && f_pure (nfacts x) && String.eqb (qualified_name y) "nil" && N.testbit (f_ext (nfacts y)) x_isnil then
                 if existsb (node_eqb x) (kids ret) then Ok [mkw "nilValReturn" ret (RBare "nil") (callee_ident y) true] else Ok []
               else Ok []
           | _ => Ok []
@@ -637,6 +638,29 @@ Definition nilValReturn_visit (stmt : node) : outcome :=
   end.
 
 Definition run_nilValReturn (f : file) : outcome := run_stmt nilValReturn_visit f.
+
+(* nilValReturn as it was BEFORE the fix (guard recognised by the spelling of nil only); kept for C20_prefix_nilValReturn_real_refuted *)
+Definition nilValReturn_visit_prefix (stmt : node) : outcome :=
+  if negb (is_tag TIf stmt) then Ok [] else
+  let ks := kids stmt in
+  match nth_error ks (N.to_nat (na stmt)), nth_error ks (N.to_nat (na stmt) + 1) with
+  | Some cond, Some body =>
+      match kids body with
+      | [ret] =>
+          if negb (is_tag TReturn ret) then Ok [] else
+          match cond with
+          | Nd TBinary _ _ op _ _ (NC x (NC y NN)) =>
+              if N.eqb op tok_EQL && f_pure (nfacts x) && String.eqb (qualified_name y) "nil" then
+                if existsb (node_eqb x) (kids ret) then Ok [mkw "nilValReturn" ret (RBare "nil") (callee_ident y) true] else Ok []
+              else Ok []
+          | _ => Ok []
+          end
+      | _ => Ok []
+      end
+  | _, _ => Ok []
+  end.
+
+Definition run_nilValReturn_prefix (f : file) : outcome := run_stmt nilValReturn_visit_prefix f.
 
 (* ---------- hypotheses of the C20 partial theorems, as predicates on nodes ---------- *)
 (* no identifier spelled [name] denotes anything but the universe object / no qualifier [q] anything but package [path] *)
